@@ -125,7 +125,7 @@ class Interp:
             return ("str", k["s"])
         if "fn" in k:
             return ("fnitem", k.get("rf") or k["fn"])
-        return ("const", k.get("t"))
+        return ("const", k.get("cdef") or k.get("t"))
 
     def rvalue(self, st, rv, blk):
         k = rv[0]
